@@ -1006,6 +1006,26 @@ void container_entry()
               vf::violation(key + "/non-element", "mismatch", "a drawn reference does not refer to an element of the container");
             report_ints(key + "/" + E::name, v, static_cast<i128>(ia), static_cast<i128>(ib), ends_draws);
             check_generator_state<E>(g1, g2, key + "/" + E::name);
+            // the wrapper refers to the CONTAINER: after the container has grown (its storage moved), a draw still
+            // yields one of the container's present elements (the index interval is the one it was built with)
+            if constexpr (!is_const)
+            {
+              for (std::size_t extra = 0; extra < 64; ++extra)
+                store.push_back(cinfo<C>::elem(n + extra));
+              bool ok = true;
+              for (unsigned k = 0; k < 16 && ok; ++k)
+              {
+                auto &r = w(g1);
+                bool found = false;
+                for (std::size_t j = ia; j <= ib; ++j)
+                  found = found || (&store[j] == &r && store[j] == cinfo<C>::elem(j));
+                ok = found;
+              }
+              if (!ok)
+                vf::violation(key + "/element-after-the-container-grew", "mismatch", "a draw after 64 push_backs is not an element of the container at an index of the interval");
+              VF_COUNT("container/drawn-after-growth");
+              store.resize(n);
+            }
           };
           std::uniform_int_distribution<ST> const plain_sd(static_cast<ST>(ia), static_cast<ST>(ib));
           auto const run_opt = [&](auto opt, auto sd) {
